@@ -33,6 +33,9 @@ pub fn hit(point: Point, worker: usize) {
     let trace = *TRACE.get_or_init(|| std::env::var("RWS_VERIF_TRACE").map(|v| v == "1").unwrap_or(false));
     if trace {
         let seq = SEQ.fetch_add(1, Ordering::SeqCst);
-        eprintln!("VERIF-EVENT {} {:?} {}", seq, point, worker);
+        // one write for the whole line: a panic message printed by another thread (the default hook does not take
+        // the stderr lock) must not end up in the middle of it
+        let line = format!("VERIF-EVENT {} {:?} {}\n", seq, point, worker);
+        let _ = std::io::Write::write_all(&mut std::io::stderr(), line.as_bytes());
     }
 }
